@@ -694,6 +694,76 @@ func scenAddHostDuringClose(o *hlib.Out) {
 	emit(o, "session-add-host", true, "", e.viol, e.info)
 }
 
+// S10: a host is removed (node DOWN event) while its pool is still empty: the pool's first,
+// synchronous connect is held in the dialer. removeHost must close the pool whatever its size, so
+// that the connect, when it completes, closes its connection; then Session.Close: every connection
+// ever dialled must be closed. Variant "refill": the removed pool's connect completes only after
+// Session.Close.
+func scenRemoveEmptyPool(o *hlib.Out, afterClose bool) {
+	name := "remove-host-empty-pool"
+	if afterClose {
+		name += "-late"
+	}
+	e, err := newSessEnv(name, 2, 1, nil)
+	if err != nil {
+		e.v("harness", "", "NewSession: %v", err)
+		emit(o, "session-remove-empty", false, "", e.viol, e.info)
+		e.done()
+		return
+	}
+	defer e.done()
+	e.gd.mu.Lock()
+	e.gd.gated["10.0.1.3"] = true
+	e.gd.mu.Unlock()
+	third := e.net.AddNode("10.0.1.3:9042")
+	go gocql.VerifC17RefreshRing(e.s) // discovers the third node: addHost -> fill -> connect -> (held) dial
+	dl := time.Now().Add(3 * time.Second)
+	for e.gd.arrivals() == 0 && time.Now().Before(dl) {
+		time.Sleep(200 * time.Microsecond)
+	}
+	if e.gd.arrivals() == 0 {
+		e.v("harness", "", "the refresh did not start connecting to the new host")
+		emit(o, "session-remove-empty", false, "", e.viol, e.info)
+		return
+	}
+	before := len(gocql.VerifC17SessionPools(e.s))
+	// the node is reported DOWN: handleNodeDown -> policyConnPool.removeHost on a pool with 0 connections
+	sent := 0
+	for _, nd := range e.nodes {
+		sent += nd.PushEvent(node.StatusChangeEvent{Change: "DOWN", IP: third.IP(), Port: 9042})
+	}
+	dl = time.Now().Add(4 * time.Second) // events are debounced for one second
+	for len(gocql.VerifC17SessionPools(e.s)) >= before && time.Now().Before(dl) {
+		time.Sleep(2 * time.Millisecond)
+	}
+	removed := len(gocql.VerifC17SessionPools(e.s)) < before
+	e.info["down_events_sent"] = sent
+	e.info["pool_removed_while_empty"] = removed
+	time.Sleep(5 * time.Millisecond) // removeHost closes the pool on a goroutine of its own
+	if !afterClose {
+		e.gd.req(0).release <- true // the held connect completes on the removed pool
+		e.net.WaitFor(2*time.Second, func() bool { return third.TotalConns() > 0 })
+		// it must close what it dialled, now: the pool was closed by removeHost
+		e.net.WaitFor(2*time.Second, func() bool { return third.TotalConns() > 0 && third.OpenConns() == 0 })
+		if removed && third.TotalConns() > 0 && third.OpenConns() > 0 {
+			e.v("conn-in-removed-pool", "", "the pool of a removed host (removed while empty, first connect in flight) kept the connection that connect made afterwards: removeHost did not close the pool")
+		}
+	}
+	if !e.closeWatch(10 * time.Second) {
+		e.v("close-never-returns", "", "Close did not return within 10 s")
+		emit(o, "session-remove-empty", removed, "", e.viol, e.info)
+		return
+	}
+	if afterClose {
+		select {
+		case e.gd.req(0).release <- true:
+		default:
+		}
+	}
+	e.afterClose()
+	emit(o, "session-remove-empty", removed, "", e.viol, e.info)
+}
+
 func runSessions(o *hlib.Out) {
 	rng := o.Rng
 	reps := 1
@@ -717,6 +787,7 @@ func runSessions(o *hlib.Out) {
 		scenEvents(o, rng)
 		scenInitFails(o)
 		scenAddHostDuringClose(o)
+		scenRemoveEmptyPool(o, false)
 	}
 	hangs, trials := 0, 5*reps
 	for t := 0; t < trials; t++ {
